@@ -1,6 +1,7 @@
 package main
 
 import (
+	"go/constant"
 	"fmt"
 	"go/ast"
 	"go/token"
@@ -21,7 +22,7 @@ func init() {
 	register(&Rule{ID: "E-FLOAT-ORIGIN", Props: []string{"C05", "C14", "C02", "C13", "C20"}, Floor: 3,
 		Doc: "no numeric value is routed through binary floating point or machine integers unless it arrived that way: the evaluator never calls json.Number.Float64/Int64, strconv.Parse*/Atoi, Decimal.Float*, math/big; integer-to-float conversions do not occur; float-to-int conversions occur only in toInt; decimal128.FromFloat* is applied only to float-kind type-switch bindings; Decimal.Int64 is used only by the integer-argument coercion",
 		Run: ruleEFloatOrigin})
-	register(&Rule{ID: "E-INFNAN", Props: []string{"C05", "C14", "C18"}, Floor: 4,
+	register(&Rule{ID: "E-INFNAN", Props: []string{"C05", "C14", "C18"}, Floor: 1,
 		Doc: "every result value of the evaluator that is produced by decimal Add/Sub/Mul/Quo/QuoRem/Pow or by float + - * /, math.Mod or math.Floor of such is returned only under the false edges of IsInf and IsNaN tests on that value (whose true edges return ErrInfinity / ErrNotANumber)",
 		Run: ruleEInfNaN})
 	register(&Rule{ID: "E-ROUNDING-AGREE", Props: []string{"C14"}, Floor: 1,
@@ -481,6 +482,13 @@ func guardedBy(b *ssa.BasicBlock, v ssa.Value, pred string) bool {
 			continue
 		}
 		if call.Call.Args[0] == v {
+			// IsInf takes a sign: only 0 tests both infinities
+			if pred == "IsInf" {
+				sign := call.Call.Args[len(call.Call.Args)-1]
+				if c, ok := sign.(*ssa.Const); !ok || c.Value == nil || constant.Sign(c.Value) != 0 {
+					continue
+				}
+			}
 			return true
 		}
 	}
